@@ -259,7 +259,7 @@ func runBatch(s *scratch, spec *propSpec, b budget, tier string, seed uint64, tr
 		args = append(args, b.extra...)
 		env := []string{"GOMAXPROCS=2"}
 		if b.race {
-			env = append(env, "GORACE=halt_on_error=0 exitcode=66 history_size=7 log_path="+filepath.Join(s.dir, "race", fmt.Sprintf("w%d", i)))
+			env = append(env, "GORACE=halt_on_error=0 exitcode=66 history_size=7 atexit_sleep_ms=0 log_path="+filepath.Join(s.dir, "race", fmt.Sprintf("w%d", i)))
 		}
 		wg.Add(1)
 		go func(i int, args, env []string) {
@@ -421,7 +421,7 @@ func processOne(s *scratch, spec *propSpec, b budget, bin, sig string, cands []s
 			if !b.race {
 				return nil
 			}
-			return []string{"GORACE=halt_on_error=0 exitcode=66 history_size=7 log_path=" + filepath.Join(s.dir, "race", fmt.Sprintf("p%d-%s", idx, tag))}
+			return []string{"GORACE=halt_on_error=0 exitcode=66 history_size=7 atexit_sleep_ms=0 log_path=" + filepath.Join(s.dir, "race", fmt.Sprintf("p%d-%s", idx, tag))}
 		}
 		// 1. confirm in a fresh process (strict replay)
 		attempts, hits := 6, 0
